@@ -20,7 +20,11 @@ RULE = ("exponent maps over 1-4 symbols (every order), integer exponents in [-4,
         "string, product of powers, quotient of products, square root of the squared product, "
         "or a chain of two constant float powers such as (x**0.2)**5.0 whose exact product is an "
         "integer or p/q with q <= 10 while the binary64 product is not), "
-        "its `.unit` is read, assigned to a fresh quantity, used in Measurement(unit=..) and parsed "
+        "the constant powers handed over as Python float / int, Fraction and numpy scalars of every "
+        "floating width (float16, float32, float64, longdouble) and int32 / int64, on arrays also "
+        "element-wise as an ndarray of that dtype; "
+        "its `.unit` is read (a read that RAISES on a quantity that was built is a failure of the "
+        "property: no unit string exists for that map), assigned to a fresh quantity, used in Measurement(unit=..) and parsed "
         "back, and MeasurementArray.append / insert / item assignment are exercised on arrays "
         "built the same way; the printed string is also fed to the Lean parser model and the Lean "
         "printer's string to the real parser.  Non-trivial = no positive exponent, or a "
@@ -91,7 +95,10 @@ def chain_cases(rng, n_random):
     return out
 
 
-PTYPES = ["Fraction", "np.float64", "np.float32", "np.int64", "np.int32", "float"]
+# every floating width numpy has (binary16, binary32, binary64, extended): a numpy float that is
+# no subclass of Python's float (all but float64) reaches the printer as it is
+PTYPES = ["Fraction", "np.float64", "np.float32", "np.float16", "np.longdouble", "np.int64",
+          "np.int32", "float"]
 
 
 def ptypes_for(u, route):
@@ -105,7 +112,9 @@ def ptypes_for(u, route):
 def build(q, u, route, mk):
     """a quantity (or array) whose unit is u, built through arithmetic; mk(sym_unit_string).
     route 'powers|T', 'quotient|T', 'sqrt|T': the constant powers are handed over as objects of
-    the numeric type T (Fraction, numpy scalars, float) instead of int / binary64 quotient"""
+    the numeric type T (Fraction, numpy scalars, float) instead of int / binary64 quotient;
+    'powers|T[]': as T, and when the base is an array the exponent is an ndarray of dtype T
+    (element-wise power)"""
     route, _, ptype = route.partition("|")
     if route == "string":
         return mk(X.unit_string(u))
@@ -115,9 +124,18 @@ def build(q, u, route, mk):
         u0 = [(k, e / (p1 * p2)) for k, e in u]
         return (mk(X.unit_string(u0)) ** float(p1)) ** float(p2)
 
+    elementwise = ptype.endswith("[]")      # T[]: on an array the exponent is an ndarray of dtype T
+    ptype = ptype[:-2] if elementwise else ptype
+
     def powr(k, e):
         x = mk(k)
-        return x if e == 1 else x ** (X.num_obj(e, ptype) if ptype else num(e))
+        if e == 1:
+            return x
+        p = X.num_obj(e, ptype) if ptype else num(e)
+        if elementwise and hasattr(x, "__len__"):
+            import numpy as np
+            p = np.full(len(x), p, dtype=type(p))
+        return x ** p
     if route == "powers":
         r = None
         for k, e in u:
@@ -275,6 +293,15 @@ def pre_in_domain(pre):
     return not active
 
 
+def base_value(route):
+    """value of the quantities the judged unit is built from.  2.0 — except when the constant
+    powers are binary16 numbers: numpy then computes the VALUES in binary16 as well (a Python float
+    is a weak operand), and 2.0 ** -8 four times over underflows to 0 (3.0 ** 8 overflows), after
+    which str() of the quantity raises a math domain error.  C13 is about units, so binary16
+    powers are applied to the value 1.0"""
+    return 1.0 if "np.float16" in route else 2.0
+
+
 def observe(q, u, frac, route, arrays, faults=True, pre=()):
     out = {"route": route}
     X.reset(q)
@@ -288,14 +315,32 @@ def observe(q, u, frac, route, arrays, faults=True, pre=()):
     with warnings.catch_warnings():
         warnings.simplefilter("ignore")
         try:
-            x = build(q, u, route, lambda s: q.Measurement(2.0, 0.1, unit=s))
+            x = build(q, u, route, lambda s: q.Measurement(base_value(route), 0.1, unit=s))
+        except Exception as e:  # noqa: BLE001  the ARITHMETIC raised: not a statement of C13
+            out["build_exception"] = "{}: {}".format(type(e).__name__, e)
+            return out
+        # the quantity exists; its exponent map is u (the harness built it so).  From here on the
+        # library PRINTS: a read that raises means there is no unit string for this map at all
+        try:
             s = x.unit
             out["s"] = s
+        except Exception as e:  # noqa: BLE001
+            out["read_exception"] = "{}: {}".format(type(e).__name__, e)
+            for where, f in (("str(a)", lambda: str(x)), ("a.unit again", lambda: x.unit)):
+                try:
+                    f()
+                    out.setdefault("other_reads", {})[where] = "ok"
+                except Exception as e2:  # noqa: BLE001
+                    out.setdefault("other_reads", {})[where] = type(e2).__name__
+            X.reset(q)
+            return out
+        try:
             # the other places in which the library prints the unit of this quantity
             out["shown"] = {"str(a)": str(x).endswith(" [{}]".format(s)) if s else True,
                             "a.unit again": x.unit == s}
-        except Exception as e:  # noqa: BLE001
-            out["build_exception"] = "{}: {}".format(type(e).__name__, e)
+        except Exception as e:  # noqa: BLE001  str() also formats the value: not C13's statement
+            out["build_exception"] = "{}: {} (in str(a) after a.unit had been read)".format(
+                type(e).__name__, e)
             return out
         out["parsed"] = X.impl_parse(s) if s else ("ok", ())
         # FAULTS: requests that are rejected (caught) must leave style, quantity and array alone
@@ -330,14 +375,28 @@ def observe(q, u, frac, route, arrays, faults=True, pre=()):
         except Exception as e:  # noqa: BLE001
             out["ctor"] = ("reject", type(e).__name__)
         if arrays:
+            arr = None
             try:
-                arr = build(q, u, route, lambda s: q.MeasurementArray([1.0, 2.0, 3.0], 0.1, unit=s))
-                out["arr_unit"] = arr.unit
+                arr = build(q, u, route, lambda s: q.MeasurementArray(
+                    [1.0, 1.0, 1.0] if base_value(route) == 1.0 else [1.0, 2.0, 3.0], 0.1, unit=s))
+            except Exception as e:  # noqa: BLE001
+                out["arr_build_exception"] = "{}: {}".format(type(e).__name__, e)
+            try:
+                if arr is not None:
+                    out["arr_unit"] = arr.unit
+            except Exception as e:  # noqa: BLE001  the array exists, its unit cannot be read
+                out["arr_read_exception"] = "{}: {}".format(type(e).__name__, e)
+                arr = None
+            try:
+                if arr is None:
+                    raise LookupError
                 out["shown"]["str(array)"] = str(arr).endswith(" ({})".format(arr.unit)) if arr.unit \
                     else True
                 out["shown"]["XYDataSet.xunit"] = q.XYDataSet(arr, [1.0, 2.0, 3.0]).xunit == arr.unit
-            except Exception as e:  # noqa: BLE001
-                out["arr_build_exception"] = "{}: {}".format(type(e).__name__, e)
+            except LookupError:
+                pass
+            except Exception as e:  # noqa: BLE001  str() / XYDataSet do more than print the unit
+                out["arr_build_exception"] = "{}: {} (showing the array)".format(type(e).__name__, e)
                 arr = None
             if arr is not None:
                 if faults:
@@ -391,6 +450,17 @@ def judge(u, frac, o, m_print, m_parse, pre=()):
     if "build_exception" in o:
         return [dict(base, signature="c13:build:" + o["build_exception"].split(":")[0],
                      kind="disagreement", what="building the quantity raised " + o["build_exception"])]
+    if "read_exception" in o:
+        # "every unit string the library produces, for any exponent map ... including the units of
+        # quotients, powers and roots" / "a unit read from one quantity can always be assigned to
+        # another": the quantity was built, its map is in the domain, and reading its unit raises
+        return [dict(base, signature="c13:unit-unreadable:{}:{}".format(
+                         style, o["read_exception"].split(":")[0]),
+                     oracle="independent", what="the quantity exists (exponents {}) but reading its "
+                     ".unit raises {}; other reads: {}".format(X.show(want), o["read_exception"],
+                                                              o.get("other_reads")),
+                     impl="raises " + o["read_exception"], expected="a unit string for " + X.show(want),
+                     clause="every exponent map has a printed unit that can be read")]
     s = o["s"]
     sh = shape(s)
     st, val = o["parsed"]
@@ -440,6 +510,13 @@ def judge(u, frac, o, m_print, m_parse, pre=()):
     if "arr_build_exception" in o:
         fails.append(dict(base, signature="c13:array-build", kind="disagreement",
                           what="building the array raised " + o["arr_build_exception"]))
+    if "arr_read_exception" in o:
+        fails.append(dict(base, signature="c13:array-unit-unreadable:{}:{}".format(
+                              style, o["arr_read_exception"].split(":")[0]),
+                          oracle="independent", what="the array exists (exponents {}) but reading / "
+                          "showing its unit raises {}".format(X.show(want), o["arr_read_exception"]),
+                          impl="raises " + o["arr_read_exception"],
+                          expected="a unit string for " + X.show(want), clause="array editing"))
     for opname in ("append", "insert", "setitem"):
         r = o.get(opname)
         if not r:
@@ -544,7 +621,7 @@ def run(ctx, cases, ref=False, use_model=True):
         dist["style:" + ("fraction" if frac else "exponents")] += 1
         dist["route:" + route.split(":")[0].split("|")[0]] += 1
         if "|" in route:
-            dist["powertype:" + route.split("|")[1]] += 1
+            dist["powertype:" + route.split("|")[1] + (" (array base)" if arrays else "")] += 1
         for x in o.get("faults", []):
             dist["fault:{}:{}".format(x[0], x[1])] += 1
         if route.startswith("chain:"):
@@ -578,6 +655,23 @@ def gen_cases(rng, n, arrays_every=4, tags=None):
             if ts and rng.random() < 0.5:
                 route += "|" + rng.choice(ts)      # ARGUMENT TYPES of the constant powers
             cases.append((u, frac, route, i % arrays_every == 0))
+    # ARGUMENT TYPES of the constant powers (deliberate: every type x every arithmetic route x both
+    # styles, an integer map and a fractional one, scalars and arrays, and element-wise on arrays)
+    tpool = [u for u in sample_maps(rng, 60)[45:] if len(u) <= 3]
+    for t in PTYPES:
+        for route in ("powers", "quotient", "sqrt"):
+            for frac in (True, False):
+                picked = 0
+                for _ in range(40):
+                    u = rng.choice(tpool)
+                    if t not in ptypes_for(u, route):
+                        continue
+                    ew = t.startswith("np.") and picked == 1
+                    cases.append((u, frac, route + "|" + t + ("[]" if ew else ""), picked == 1 or ew))
+                    tags["powertype-deliberate:" + t + ("[] element-wise" if ew else "")] += 1
+                    picked += 1
+                    if picked == 2:
+                        break
     # HISTORIES before the judged print (deliberate: every class several times per run, both
     # styles, integer and rational maps, string and arithmetic routes)
     pool = sample_maps(rng, 0) + [u for u, _, _, _ in cases[::7]]
